@@ -82,6 +82,26 @@ Pad(n, w) == LET t == NatToStr(n) IN [i \in 1..(w - Len(t)) |-> 48] \o t
 DateToStr(v) == Pad(v.y, 4) \o <<45>> \o Pad(v.m, 2) \o <<45>> \o Pad(v.d, 2)
 DatetimeToStr(v) == DateToStr(v) \o <<32>> \o Pad(v.H, 2) \o <<58>> \o Pad(v.M, 2) \o <<58>> \o Pad(v.S, 2) \o <<46>> \o Pad(v.us, 6)
 DatetimeToDate(v) == [y |-> v.y, m |-> v.m, d |-> v.d]
+
+(* durations: the difference of two dates / datetimes as <days, seconds, microseconds> with 0 <= seconds < 86400 and           *)
+(* 0 <= microseconds < 10^6 (python's timedelta normal form; the day count may be negative)                                  *)
+DaysFromCivil(y, m, d) ==      \* days since 1970-01-01 (proleptic Gregorian calendar, y >= 0)
+    LET yy  == IF m <= 2 THEN y - 1 ELSE y
+        era == yy \div 400
+        yoe == yy - era * 400
+        mp  == IF m > 2 THEN m - 3 ELSE m + 9
+        doy == (153 * mp + 2) \div 5 + d - 1
+        doe == yoe * 365 + yoe \div 4 - yoe \div 100 + doy
+    IN era * 146097 + doe - 719468
+DurNorm(dd, ss, uu) ==
+    LET s1 == IF uu < 0 THEN ss - 1 ELSE ss
+        u1 == IF uu < 0 THEN uu + 1000000 ELSE uu
+        d1 == IF s1 < 0 THEN dd - 1 ELSE dd
+        s2 == IF s1 < 0 THEN s1 + 86400 ELSE s1
+    IN [dd |-> d1, ss |-> s2, us |-> u1]
+DateDiff(a, b) == DurNorm(DaysFromCivil(a.y, a.m, a.d) - DaysFromCivil(b.y, b.m, b.d), 0, 0)
+DatetimeDiff(a, b) == DurNorm(DaysFromCivil(a.y, a.m, a.d) - DaysFromCivil(b.y, b.m, b.d),
+                              (a.H * 3600 + a.M * 60 + a.S) - (b.H * 3600 + b.M * 60 + b.S), a.us - b.us)
 DateToDatetime(v) == [y |-> v.y, m |-> v.m, d |-> v.d, H |-> 0, M |-> 0, S |-> 0, us |-> 0]
 
 =============================================================================
